@@ -1,10 +1,8 @@
-import P9Model.Conc.Locks
-/-! Kernel-evaluated facts about the regenerated lock scripts (one evaluation each, cached). -/
-namespace P9.Locks
-theorem lockset_fact : locksetOk = true := by decide +kernel
-theorem leaf_fact : leafOk = true := by decide +kernel
-theorem childMu_backend_fact : childMuBackendOk = true := by decide +kernel
-theorem order_fact : orderOk = true := by decide +kernel
-theorem contract_fact : guardsMeetContract = true := by decide +kernel
-theorem open_once_fact : openOnceOk = true := by decide +kernel
-end P9.Locks
+import P9Model.Lemmas.Lock.Lockset
+import P9Model.Lemmas.Lock.Leaf
+import P9Model.Lemmas.Lock.ChildMu
+import P9Model.Lemmas.Lock.Order
+import P9Model.Lemmas.Lock.Contract
+import P9Model.Lemmas.Lock.OpenOnce
+import P9Model.Lemmas.Lock.Mapper
+import P9Model.Lemmas.Lock.Wire
